@@ -29,7 +29,20 @@ func genC08(t *rapid.T) *CaseC08 {
 	}
 	for len(c.Boxes) < n {
 		base := c.Boxes[rapid.IntRange(0, len(c.Boxes)-1).Draw(t, "base")]
-		switch rapid.IntRange(0, 3).Draw(t, "rel") {
+		switch rapid.IntRange(0, 4).Draw(t, "rel") {
+		case 4:
+			// the same index numbers at another vertical / horizontal zoom (ground-level voxels of two resolutions)
+			nb := base
+			if rapid.Bool().Draw(t, "mixV") {
+				nb.V = clamp64(base.V+rapid.Int64Range(-2, 2).Draw(t, "dvz"), 0, 35)
+			} else {
+				nb.H = clamp64(base.H+rapid.Int64Range(-1, 1).Draw(t, "dhz"), 0, 35)
+			}
+			if nb.Valid() {
+				c.Boxes = append(c.Boxes, nb)
+			} else {
+				c.Boxes = append(c.Boxes, base)
+			}
 		case 0:
 			c.Boxes = append(c.Boxes, base)
 		case 1:
@@ -65,6 +78,12 @@ func classifyC08(c *CaseC08) (bool, []string) {
 	}
 	if len(c.Boxes) >= 33 {
 		cl = append(cl, "long-list")
+	}
+	for _, b := range c.Boxes[1:] {
+		if b.H != c.Boxes[0].H || b.V != c.Boxes[0].V {
+			cl = append(cl, "mixed-zooms-in-list")
+			break
+		}
 	}
 	if 2*c.HL+1 > n {
 		cl = append(cl, "stencil-wider-than-grid")
